@@ -38,3 +38,17 @@ EXTRA = {
            'physical units down to 3e-12.',
     'C20': 'Also: centroids of signed images, hex_segments cold / warm across ring counts, segment radii 13 and 16.5, rotated rectangles with shifts.',
 }
+
+# facets added after waves 8 and 9 (defects that need two conditions at once)
+for _k, _v in {
+    'C08': ' Reused planes are built with the documented amp= spelling.',
+    'C09': ' Tilt metadata on one Field only of a segmented wavefront must be refused.',
+    'C10': ' Harness: fit_tilt after a plane of the same shape and another pixel scale; rescale then in-place fit on the result (source untouched); rescale, attribute reassigned, rescale.',
+    'C11': ' Weighted masks with caller-supplied coordinates; Fortran-ordered and transposed-view masks.',
+    'C13': ' A non-uniform grid whose smallest interval is neither first nor last, with sampling left / right.',
+    'C14': ' Every flux-unit triple also on values of both signs with an exact zero.',
+    'C15': ' integrate with spectrum and bounds in um / angstrom / m; a piecewise-uniform grid; crop of an integer-typed grid at limits just beside samples.',
+    'C17': ' resample between independently given decimal pixel scales (0.3 -> 0.1 ...); rescale, amplitude / OPD reassigned, rescale again.',
+    'C19': ' smear at 0 / 90 / 180 / 270 / -90 degrees x oversampling 1..3 in physical units; frames 5x64, 64x5, 9x201 with extents 8 and 12.',
+}.items():
+    EXTRA[_k] = EXTRA.get(_k, 'Also:') + _v
